@@ -260,6 +260,35 @@ def run(chk):
                 # a gateway that stopped answering is reported once, not waited for on each of the remaining requests
                 chk.require(stuck[0] < 6, "c20:wedged", "six requests got no answer within 10 s; the last: %s" % label, row)
 
+        # ---- ordinary, valid requests on an object that carries every kind of attribute (user metadata, tags, content headers, a
+        # checksum): none of them may be answered 5xx
+        import time as _t
+        rich_h = {"x-amz-meta-a": "1", "x-amz-meta-b-c": "two", "x-amz-tagging": "t=1&u=2", "Content-Type": "text/x-rich", "Content-Encoding": "identity", "Cache-Control": "no-cache",
+                  "Content-Disposition": "inline", "Content-Language": "en", "Expires": "Thu, 01 Jan 2032 00:00:00 GMT",
+                  "x-amz-checksum-crc32": __import__("base64").b64encode((__import__("zlib").crc32(b"rich object body") & 0xffffffff).to_bytes(4, "big")).decode()}
+        rr0_ = cl.req("PUT", "/bk1/rich", body=b"rich object body", headers=rich_h)
+        chk.tie("the object with every kind of attribute is stored", rr0_.status == 200, "%d %s" % (rr0_.status, rr0_.code))
+        r0_ = cl.req("POST", "/bk1/rich-mp", query={"uploads": ""}, headers=rich_h); ruid = r0_.xml().findtext("UploadId") if r0_.status == 200 and r0_.xml() is not None else ""
+        for label_, m_, p_, q_, h_ in (("CopyObject(rich->new)", "PUT", "/bk1/rich-copy", {}, {"x-amz-copy-source": "bk1/rich"}),
+                                       ("CopyObject(rich->new,REPLACE)", "PUT", "/bk1/rich-copy2", {}, {"x-amz-copy-source": "bk1/rich", "x-amz-metadata-directive": "REPLACE", "x-amz-meta-n": "v"}),
+                                       ("CopyObject(rich->itself,REPLACE)", "PUT", "/bk1/rich", {}, {"x-amz-copy-source": "bk1/rich", "x-amz-metadata-directive": "REPLACE", "x-amz-meta-a": "1", "x-amz-meta-z": "9"}),
+                                       ("CopyObject(rich->other-bucket)", "PUT", "/bk2/rich-copy", {}, {"x-amz-copy-source": "bk1/rich"}),
+                                       ("UploadPartCopy(rich)", "PUT", "/bk1/rich-mp", {"partNumber": "1", "uploadId": ruid}, {"x-amz-copy-source": "bk1/rich"}),
+                                       ("ListParts(rich-mp)", "GET", "/bk1/rich-mp", {"uploadId": ruid}, {}),
+                                       ("GetObjectAttributes(rich)", "GET", "/bk1/rich", {"attributes": ""}, {"x-amz-object-attributes": "ETag,Checksum,ObjectParts,StorageClass,ObjectSize"}),
+                                       ("HeadObject(rich,checksum)", "HEAD", "/bk1/rich", {}, {"x-amz-checksum-mode": "ENABLED"}),
+                                       ("GetObject(rich,partNumber)", "GET", "/bk1/rich", {"partNumber": "1"}, {}),
+                                       ("GetObjectTagging(rich)", "GET", "/bk1/rich", {"tagging": ""}, {}),
+                                       ("GetObject(rich-copy)", "GET", "/bk1/rich-copy", {}, {}),
+                                       ("ListObjectsV2(fetch-owner)", "GET", "/bk1", {"list-type": "2", "fetch-owner": "true"}, {}),
+                                       ("ListObjectVersions", "GET", "/bk1", {"versions": ""}, {}),
+                                       ("DeleteObject(rich-copy)", "DELETE", "/bk1/rich-copy", {}, {})):
+            t0_ = _t.time(); rr_ = cl.req(m_, p_, query=q_, headers=h_, timeout=15)
+            chk.case(("rich", label_), True); chk.count("rich:%s:%d" % (label_, rr_.status))
+            after(label_, m_, rr_, _t.time() - t0_, {"valid_request": True})
+            if rr_.status >= 500 or rr_.status == -1:
+                chk.fail("c20:5xx-on-valid-request:" + label_, "the valid request %s answered %d %s" % (label_, rr_.status, rr_.code), {"request": label_, "status": rr_.status, "log": g.log_tail(600)})
+        cl.req("DELETE", "/bk1/rich-mp", query={"uploadId": ruid})
         # ---- corpus of former crashers and paging ties
         for i in range(5):
             cl.req("PUT", "/bkt%d" % i)
